@@ -4,7 +4,9 @@ UNITS = []
 
 # ---- L2: a complete header line that ends exactly at the end of the chunk is kept pending (it may be folded) -------------
 HDR_H = '''
+#ifndef VNATIVE   /* the native replay links the real htp_log */
 void htp_log(htp_connp_t *connp, const char *file, int line, enum htp_log_level_t level, int code, const char *fmt, ...) { }
+#endif
 /* constant-capacity model of bstr_dup_mem (symbolic-size heap objects do not bit-blast); checked against the real function by unit c13_dup_model_lemma */
 bstr *v_model_dup_mem(const void *data, size_t len) {
   if (len > N) return NULL;
@@ -25,9 +27,11 @@ void HARNESS(void) { VIN(vin_t);
   /* the response state function is too branchy for a fully symbolic line: only the first byte (the one the folding test looks at) stays symbolic */
   for (int i = 1; i + 1 < N; i++) VASSUME(in.line[i] == (i == 1 ? ':' : 'b'));
 #endif
-  htp_connp_t *c = calloc(1, sizeof(*c)); htp_tx_t *tx = calloc(1, sizeof(*tx)); htp_cfg_t *cfg = calloc(1, sizeof(*cfg));
+  /* static objects: their zero initialisation is a constant for symex (a calloc'ed object keeps every field symbolic and nothing is pruned) */
+  static htp_connp_t C; static htp_tx_t TX; static htp_cfg_t CFG;
+  htp_connp_t *c = &C; htp_tx_t *tx = &TX; htp_cfg_t *cfg = &CFG;
   unsigned char *chunk = malloc(N);
-  if (!c || !tx || !cfg || !chunk) { free(c); free(tx); free(cfg); free(chunk); return; }
+  if (!chunk) return;
   memcpy(chunk, in.line, N);
   cfg->field_limit_hard = 1000; cfg->server_personality = HTP_SERVER_GENERIC;
   cfg->process_request_header = stub_process_header; cfg->process_response_header = stub_process_header;
@@ -35,7 +39,7 @@ void HARNESS(void) { VIN(vin_t);
   c->cfg = cfg; c->DIR_tx = tx; c->DIR_status = HTP_STREAM_DATA;
   c->DIR_current_data = chunk; c->DIR_current_len = N;
   htp_status_t rc = STATE_FN(c);
-  if (rc == HTP_ERROR) { /* allocation failure while keeping the line */ free(c->DIR_header); free(c->DIR_buf); free(c); free(tx); free(cfg); free(chunk); return; }
+  if (rc == HTP_ERROR) { /* allocation failure while keeping the line */ free(c->DIR_header); free(c->DIR_buf); free(chunk); return; }
   VASSERT(rc == HTP_DATA_BUFFER, "a header line ending exactly at the chunk end asks for more data");
   VASSERT(g_processed == 0, "look-ahead defers: the header is NOT processed before the first byte of the next line is known (it may be a folded continuation)");
   VASSERT(c->DIR_header != NULL, "the line is kept pending");
@@ -45,14 +49,14 @@ void HARNESS(void) { VIN(vin_t);
     for (size_t i = 0; i < want; i++) VASSERT(bstr_ptr(c->DIR_header)[i] == in.line[i], "pending header bytes are the line's bytes");
   }
   VASSERT(c->DIR_current_read_offset == N, "the whole chunk was read");
-  free(c->DIR_header); free(c->DIR_buf); free(c); free(tx); free(cfg); free(chunk);
+  free(c->DIR_header); free(c->DIR_buf); free(chunk);
   CANARY(); }'''
 for d, fn, src in (('in', 'htp_connp_REQ_HEADERS', 'htp_request.c'), ('out', 'htp_connp_RES_HEADERS', 'htp_response.c')):
     UNITS.append(U(name='%s_lookahead_defers' % fn, props=['C03', 'C02'], kind='bounded', src=[src], link=['htp_util.c', 'bstr.c', 'htp_hooks.c', 'htp_list.c'],
                    replay='vin', pre='#define bstr_dup_mem v_model_dup_mem\n#define bstr_add_mem v_model_add_mem', harness=HDR_H.replace('DIR', d).replace('STATE_FN', fn),
-                   defs={'quick': dict({'N': 4}, **({} if d == 'in' else {'CONCRETE_TAIL': 1})), 'thorough': dict({'N': 6}, **({} if d == 'in' else {'CONCRETE_TAIL': 1}))}, min_obl=30, timeout=(600, 2400),
+                   defs={'quick': {'N': 5}, 'thorough': {'N': 8}}, min_obl=30, timeout=(600, 2400),
                    flags_add=['--unwind', '8', '--unwinding-assertions'], flags_del=['--unsigned-overflow-check'], solver='--sat-solver cadical',
-                   bound='header lines of exactly N bytes (quick 4, thorough 7) over all byte values, LF or CRLF ended',
+                   bound='header lines of exactly N bytes (quick 5, thorough 8) over all byte values, LF or CRLF ended',
                    sub='L2 at the header-folding look-ahead of %s: a complete header line that ends exactly at the chunk end is kept pending and not processed, because the next chunk may start with a folded continuation' % fn,
                    assumes=['cfg->process_*_header replaced by a counting stub through the function pointer; real line assembly, chomp, folding test, buffer handling',
                             'bounded by line length; the deferral condition itself does not depend on the length', 'bstr_dup_mem replaced by a constant-capacity model inside this TU']))
